@@ -24,6 +24,9 @@ inductive Val where
   | y2x (var : Nat) (v : Val)
   /-- `tf.cast(<python float>, float64)` goes through float32: the value `read` substitutes for a masked variable -/
   | f32 (v : Val)
+  /-- an unspecified temporary value written by an inner step of a computation (the point a minimiser stopped at, a
+  finite-difference point); the harness treats it as a wildcard -/
+  | tmp
   deriving DecidableEq, Repr, Inhabited
 
 /-- A value in a params dict passed to `temp_params`: `bad` makes `tf.Variable.assign` raise. -/
@@ -70,6 +73,9 @@ structure St where
   /-- per DISTINCT decay object (a decay shared by several chains is one entry): the selected ls couplings as
   indices into `total_ls` -/
   ls : List (List Nat)
+  /-- `vm.trainable_vars` (variable indices, in the order of the list: the order a value SEQUENCE is assigned in
+  and the order of the rows of an error matrix) -/
+  trainable : List Nat
   deriving DecidableEq, Repr
 
 /-- Which defect sites carry the proposed patch. -/
@@ -88,10 +94,16 @@ structure Fix where
   factorIter : Bool   -- DecayGroup.factor_iteration
   splitGls : Bool     -- opt_int.split_gls
   bam : Bool          -- build_amp.build_amp_matrix
+  plotAll : Bool      -- config_loader/plotter.py PlotAllData.__init__ (the `res` loop)
+  likeProf : Bool     -- ConfigLoader.likelihood_profile
+  hesse : Bool        -- ConfigLoader.get_params_error / cal_hesse_correct / num_hess_inv_3point
+  tempVar : Bool      -- experimental/factor_system.py temp_var (used by partial_amp)
   deriving DecidableEq, Repr
 
-def Fix.none : Fix := ⟨false, false, false, false, false, false, false, false, false, false, false, false, false, false⟩
-def Fix.all : Fix := ⟨true, true, true, true, true, true, true, true, true, true, true, true, true, true⟩
+def Fix.none : Fix :=
+  ⟨false, false, false, false, false, false, false, false, false, false, false, false, false, false, false, false, false, false⟩
+def Fix.all : Fix :=
+  ⟨true, true, true, true, true, true, true, true, true, true, true, true, true, true, true, true, true, true⟩
 
 inductive Block where
   | absTemp (p : List (Nat × PV))      -- `amp.temp_params(dict)`
@@ -100,6 +112,8 @@ inductive Block where
   | usedRes (r : List Sel)             -- `amp.temp_used_res(list)` (= `with decay_group.temp_used_res(..): yield`)
   | glsOne                             -- `amp.temp_total_gls_one()`
   | tempConfig (k : Nat) (v : Val)     -- `temp_config(key_k, v)`
+  | absTempSeq (vals : List PV)        -- `amp.temp_params(list / ndarray)`: one value per trainable variable, in order
+  | vmTempSeq (vals : List PV)         -- `amp.vm.temp_params(list)`: `params.keys()` raises before anything is touched
   deriving DecidableEq, Repr
 
 inductive Comp where
@@ -110,6 +124,11 @@ inductive Comp where
   | ffNew (nb : Nat) (res : List Sel)  -- `FitFractions(amp, res).integral(data, batch=…)` with `nb` batches
   | factorIter (deep : Nat)            -- `for _ in amp.factor_iteration(deep): amp(data)`
   | bam                                -- `build_amp_matrix(decay_group, data)`
+  | evalN (n : Nat)                    -- `n` plain density evaluations (`amp(data)` in batches; `cal_bins_numbers`)
+  | plotAll (res : List (List Sel))    -- `PlotAllData(amp, data, phsp, res=res)` (get_all_plotdatas / get_plotter)
+  | likeProf (v : Nat) (up down : List Val)  -- `ConfigLoader.likelihood_profile(var_v, …)`: scan points up / down
+  | paramsError (p : List (Nat × PV)) (nfd : Nat)  -- `get_params_error(params=p, …)` with `nfd` finite-difference `fcn(x)` calls
+  | partialAmp (zs : List Nat)         -- `factor_system.partial_amp`: `with temp_var(vm): vm.set_all({z: 0}); amp(data)`
   deriving DecidableEq, Repr
 
 /-- Programs.  `compute c fault`: the `k`-th evaluation of the density inside the computation raises when
@@ -118,6 +137,8 @@ inductive Prog where
   | skip
   | raise
   | compute (c : Comp) (fault : Option Nat)
+  /-- `amp.set_params(dict)` by the user code of a body: a PERMANENT assignment -/
+  | setParams (p : List (Nat × PV))
   | block (b : Block) (body : Prog)
   | seq (p q : Prog)
   deriving DecidableEq, Repr
@@ -146,6 +167,18 @@ def setAll : List (Nat × PV) → List Val → List Val × Bool
 def setVals : List (Nat × Val) → List Val → List Val
   | [], ps => ps
   | (i, v) :: rest, ps => setVals rest (ps.set i v)
+
+/-- `vm.set_all(sequence)`: `for name in trainable_vars: set(name, vals[i])`; a sequence that is too short raises
+`IndexError` after the values it has were assigned, a value that cannot be assigned raises, surplus values are ignored. -/
+def setSeq : List Nat → List PV → List Val → List Val × Bool
+  | [], _, ps => (ps, false)
+  | _ :: _, [], ps => (ps, true)
+  | t :: ts, .good v :: vs, ps => setSeq ts vs (ps.set t v)
+  | _ :: _, .bad :: _, ps => (ps, true)
+
+/-- every trainable variable receives an unspecified value (`set_params(ndarray)` at a point chosen by a minimiser /
+a finite-difference formula) -/
+def havocTr (s : St) : St := { s with params := setVals (s.trainable.map fun t => (t, Val.tmp)) s.params }
 
 /-- `vm.get(name)` (`val_in_fit=True`): the fit-space value when a bound is registered. -/
 def getFit (E : Env) (ps : List Val) (i : Nat) : Val :=
@@ -286,6 +319,60 @@ def ffNewBatches (fx : Fix) (E : Env) (fault : Option Nat) (res : List Sel) : Na
     else if r then (s1, true, i1)
     else ffNewBatches fx E fault res nb i1 (setUsedRes E s1 (allRes E))
 
+/-- `VarsManager.set_fix(name, value, unfix)`: the value goes through `Bound.get_y2x` when the variable has a bound;
+fixing removes the name from `trainable_vars`, freeing APPENDS it (unless it is there already: warning only). -/
+def setFix (E : Env) (s : St) (v : Nat) (val : Val) (unfix : Bool) : St :=
+  { s with params := s.params.set v (if E.bounded.contains v then Val.y2x v val else val),
+           trainable := if unfix then (if s.trainable.contains v then s.trainable else s.trainable ++ [v])
+                        else s.trainable.erase v }
+
+/-- one scan direction of `likelihood_profile`: `vm.set_fix(var, x); self.fit()`; the fit number `fault` raises; a fit
+that returns leaves every (still) trainable variable at an unspecified value -/
+def lpScan (E : Env) (fault : Option Nat) (v : Nat) : List Val → Nat → St → St × Bool × Nat
+  | [], i, s => (s, false, i)
+  | x :: xs, i, s =>
+    let s1 := setFix E s v x false
+    if fault = some i then (s1, true, i) else lpScan E fault v xs (i + 1) (havocTr s1)
+
+/-- `ConfigLoader.likelihood_profile`.  As it is: `params = get_params()` (the masked view of all variables);
+scan up; `set_params(params)`; scan down; `set_params(params)`; `vm.set_fix(var, params[var], unfix=was_trainable)`;
+nothing in a `finally`.  Patched: stored values and the `trainable_vars` list saved, put back in `finally`. -/
+def execLikeProf (fixed : Bool) (E : Env) (fault : Option Nat) (v : Nat) (up down : List Val) (s : St) : St × Bool :=
+  if s.params.length ≤ v then (s, true)   -- `params[var]`: KeyError
+  else
+    let fin := fun (t : St) (r : Bool) =>
+      if fixed then ({ t with params := s.params, trainable := s.trainable }, r) else (t, r)
+    let saved := s.view
+    let unfix := s.trainable.contains v
+    let (s1, r1, i1) := lpScan E fault v up 0 s
+    if r1 then fin s1 true
+    else
+      let (s3, r3, _) := lpScan E fault v down i1 { s1 with params := saved }
+      if r3 then fin s3 true
+      else fin (setFix E { s3 with params := saved } v (saved[v]?.getD (.lit 0)) unfix) false
+
+/-- the finite-difference loop of `cal_hesse_correct` / `num_hess_inv_3point`: every `fcn(x)` assigns the displaced
+point to the trainable variables, then evaluates -/
+def fdLoop (fault : Option Nat) : Nat → Nat → St → St × Bool × Nat
+  | 0, i, s => (s, false, i)
+  | n + 1, i, s =>
+    let s1 := havocTr s
+    if fault = some i then (s1, true, i) else fdLoop fault n (i + 1) s1
+
+/-- `ConfigLoader.get_params_error(params=p, …)`: `fcn.nll_grad_hessian(p)` does `model.set_params(p)` (kept) and
+evaluates; then `nfd` finite-difference calls `fcn(x)`; as it is, the model stays at `p` / at the last displaced
+point.  Patched: the stored values are put back in `finally`. -/
+def execParamsError (fixed : Bool) (fault : Option Nat) (p : List (Nat × PV)) (nfd : Nat) (s : St) : St × Bool :=
+  let (ps, r) := setAll p s.params
+  let s1 := { s with params := ps }
+  let out : St × Bool :=
+    if r then (s1, true)
+    else if fault = some 0 then (s1, true)
+    else
+      let (s2, r2, _) := fdLoop fault nfd 1 s1
+      (s2, r2)
+  if fixed then ({ out.1 with params := s.params }, out.2) else out
+
 def execComp (fx : Fix) (E : Env) (c : Comp) (fault : Option Nat) (s : St) : St × Bool :=
   match c with
   | .pw comb => saveRunRestore fx.pw E fault (comb.flatMap fun r => [Step.setRes r, Step.eval]) s
@@ -312,6 +399,25 @@ def execComp (fx : Fix) (E : Env) (c : Comp) (fault : Option Nat) (s : St) : St 
     let (s1, r, _) := bamChains fx E fault (List.range E.nChains) 0 s
     if fx.bam then (restoreChains s s1, r)
     else if r then (s1, true) else (setUsedChains E s1 s.chainsIdx, false)
+  | .evalN n =>
+    let (s1, r, _) := runSteps E fault (evals n) 0 s
+    (s1, r)
+  | .plotAll res =>
+    -- weight of the fitted sample; used_res = amp.used_res (all resonances); for i in res: set_used_res(i); amp(phsp);
+    -- set_used_res(used_res)
+    let (s1, r, _) := runSteps E fault (Step.eval :: res.flatMap fun l => [Step.setRes l, Step.eval]) 0 s
+    if fx.plotAll then (restoreChains s s1, r)
+    else if r then (s1, true) else (setUsedRes E s1 (allRes E), false)
+  | .likeProf v up down => execLikeProf fx.likeProf E fault v up down s
+  | .paramsError p nfd => execParamsError fx.hesse fault p nfd s
+  | .partialAmp zs =>
+    -- `temp_var` as it is: params = vm.get_all_dic() (masked view); yield; vm.set_all(params) — the statements of the
+    -- unpatched `AbsPDF.temp_params`; patched: stored values, `finally`
+    let saved := s.view
+    let s0 := { s with params := setVals (zs.map fun z => (z, Val.lit 0)) s.params }
+    let (s1, r, _) := runSteps E fault [Step.eval] 0 s0
+    if fx.tempVar then ({ s1 with params := s.params }, r)
+    else if r then (s1, true) else ({ s1 with params := saved }, false)
 
 /-! ## blocks -/
 
@@ -362,14 +468,31 @@ def execBlock (fx : Fix) (E : Env) (b : Block) (body : St → St × Bool) (s : S
   | .tempConfig k v =>
     if s.config.length ≤ k then (s, true)   -- `get_config` raises: no such configuration
     else
-      let tmp := s.config[k]?.getD (.lit 0)
+      let old := s.config[k]?.getD (.lit 0)
       let (s2, r2) := body { s with config := s.config.set k v }
-      if fx.tempConfig || !r2 then ({ s2 with config := s2.config.set k tmp }, r2) else (s2, r2)
+      if fx.tempConfig || !r2 then ({ s2 with config := s2.config.set k old }, r2) else (s2, r2)
+  | .absTempSeq vals =>
+    let (ps, r) := setSeq s.trainable vals s.params
+    if fx.absTemp then
+      if r then ({ s with params := s.params }, true)
+      else
+        let (s2, r2) := body { s with params := ps }
+        ({ s2 with params := s.params }, r2)
+    else
+      let saved := s.view
+      if r then ({ s with params := ps }, true)
+      else
+        let (s2, r2) := body { s with params := ps }
+        if r2 then (s2, true) else ({ s2 with params := saved }, false)
+  | .vmTempSeq _ => (s, true)   -- `params.keys()`: AttributeError
 
 def exec (fx : Fix) (E : Env) : Prog → St → St × Bool
   | .skip, s => (s, false)
   | .raise, s => (s, true)
   | .compute c fault, s => execComp fx E c fault s
+  | .setParams p, s =>
+    let (ps, r) := setAll p s.params
+    ({ s with params := ps }, r)
   | .block b body, s => execBlock fx E b (fun t => exec fx E body t) s
   | .seq p q, s =>
     let (s1, r) := exec fx E p s
@@ -378,6 +501,41 @@ def exec (fx : Fix) (E : Env) : Prog → St → St × Bool
 /-- `applications.fit_fractions(amp, data, params=…, res=…, batch=…)` is a derived program. -/
 def fitFractions (p : List (Nat × PV)) (nb : Nat) (res : List Sel) (new : Bool) (fault : Option Nat) : Prog :=
   .block (.absTemp p) (.compute (if new then .ffNew nb res else .calFF nb res) fault)
+
+/-! ## further read-only entry points of the library as derived programs -/
+
+/-- `ConfigLoader.cal_fitfractions(params, mcdata, res, batch, method)` = `fit_fractions(amp, …)`. -/
+def cfgCalFitfractions := fitFractions
+
+/-- `ConfigLoader.cal_signal_yields`: one `fit_fractions` per data set. -/
+def calSignalYields (p : List (Nat × PV)) (nb : Nat) (res : List Sel) : List (Option Nat) → Prog
+  | [] => .skip
+  | f :: fs => .seq (fitFractions p nb res false f) (calSignalYields p nb res fs)
+
+/-- `_cal_partial_wave` (the weight computation of `plot_partial_wave` / `_get_plot_partial_wave_input`):
+`with amp.temp_params(params):` total weights in `nb` batches, then `amp.partial_weight(batch, combine=res)` per batch. -/
+def pwBatches (comb : List (List Sel)) : List (Option Nat) → Prog
+  | [] => .skip
+  | f :: fs => .seq (.compute (.pw comb) f) (pwBatches comb fs)
+
+def calPartialWave (p : List (Nat × PV)) (nb : Nat) (comb : List (List Sel)) (f0 : Option Nat)
+    (fs : List (Option Nat)) : Prog :=
+  .block (.absTemp p) (.seq (.compute (.evalN nb) f0) (pwBatches comb fs))
+
+/-- the `weights_function` of `plot_partial_wave_interf`: three `temp_used_res` blocks with one evaluation each. -/
+def interfWeights (r1 r2 : List Sel) (f1 f2 f3 : Option Nat) : Prog :=
+  .seq (.block (.usedRes r1) (.compute (.evalN 1) f1))
+    (.seq (.block (.usedRes r2) (.compute (.evalN 1) f2)) (.block (.usedRes (r1 ++ r2)) (.compute (.evalN 1) f3)))
+
+/-- `cal_bins_numbers`: one evaluation of the density on the phase-space sample, nothing else touches the model. -/
+def calBinsNumbers (f : Option Nat) : Prog := .compute (.evalN 1) f
+
+/-- `BaseCustomModel.eval_normal_factors` (model/custom.py): per constrained fraction
+`with temp_used_res(res): with mask_params(m): amp(mc)`. -/
+def evalNormalFactors : List (List Sel × List (Nat × Val) × Option Nat) → Prog
+  | [] => .compute (.evalN 1) none
+  | (r, m, f) :: rest =>
+    .seq (evalNormalFactors rest) (.block (.usedRes r) (.block (.maskParams m) (.compute (.evalN 1) f)))
 
 /-! ## line protocol -/
 
@@ -431,6 +589,8 @@ def pBlock : P Block
   | "ur" :: ws => (pList pSel ws).map fun (p, r) => (.usedRes p, r)
   | "g1" :: ws => some (.glsOne, ws)
   | "tc" :: ws => (pPair pNat pVal ws).map fun ((k, v), r) => (.tempConfig k v, r)
+  | "ats" :: ws => (pList pPV ws).map fun (p, r) => (.absTempSeq p, r)
+  | "vts" :: ws => (pList pPV ws).map fun (p, r) => (.vmTempSeq p, r)
   | _ => none
 
 def pComp : P Comp
@@ -441,6 +601,11 @@ def pComp : P Comp
   | "ffn" :: ws => (pPair pNat (pList pSel) ws).map fun ((nb, l), r) => (.ffNew nb l, r)
   | "fi" :: ws => (pNat ws).map fun (d, r) => (.factorIter d, r)
   | "bam" :: ws => some (.bam, ws)
+  | "evn" :: ws => (pNat ws).map fun (n, r) => (.evalN n, r)
+  | "pla" :: ws => (pList (pList pSel) ws).map fun (c, r) => (.plotAll c, r)
+  | "lp" :: ws => (pPair pNat (pPair (pList pVal) (pList pVal)) ws).map fun ((v, u, d), r) => (.likeProf v u d, r)
+  | "pe" :: ws => (pPair (pList (pPair pNat pPV)) pNat ws).map fun ((p, n), r) => (.paramsError p n, r)
+  | "pam" :: ws => (pList pNat ws).map fun (z, r) => (.partialAmp z, r)
   | _ => none
 
 def pProg : Nat → P Prog
@@ -449,6 +614,7 @@ def pProg : Nat → P Prog
     match ws with
     | "skip" :: r => some (.skip, r)
     | "raise" :: r => some (.raise, r)
+    | "setp" :: r => (pList (pPair pNat pPV) r).map fun (p, r1) => (.setParams p, r1)
     | "cmp" :: r =>
       match pComp r with
       | none => none
@@ -465,7 +631,8 @@ def pProg : Nat → P Prog
 
 def pFix : P Fix := fun ws =>
   match pList pBool ws with
-  | some ([a, b, c, d, e, f, g, h, i, j, k, l, m, n], r) => some (⟨a, b, c, d, e, f, g, h, i, j, k, l, m, n⟩, r)
+  | some ([a, b, c, d, e, f, g, h, i, j, k, l, m, n, o, p, q, t], r) =>
+    some (⟨a, b, c, d, e, f, g, h, i, j, k, l, m, n, o, p, q, t⟩, r)
   | _ => none
 
 def pEnv : P Env := fun ws =>
@@ -500,12 +667,16 @@ def pSt : P St := fun ws =>
           | some (mf, r4) =>
             match pList pVal r4 with
             | none => none
-            | some (cf, r5) => (pList (pList pNat) r5).map fun (ls, r6) => (⟨ps, mk, ci, nf, mf, cf, ls⟩, r6)
+            | some (cf, r5) =>
+              match pList (pList pNat) r5 with
+              | none => none
+              | some (ls, r6) => (pList pNat r6).map fun (tr, r7) => (⟨ps, mk, ci, nf, mf, cf, ls, tr⟩, r7)
 
 def showVal : Val → String
   | .lit n => toString n
   | .y2x i v => "y" ++ toString i ++ "(" ++ showVal v ++ ")"
   | .f32 v => "f(" ++ showVal v ++ ")"
+  | .tmp => "t"
 
 def showL {α : Type} (f : α → String) (l : List α) : String :=
   " ".intercalate (toString l.length :: l.map f)
@@ -520,7 +691,8 @@ def showSt (s : St) : String :=
       showB s.notFull,
       showL showB s.maskFactor,
       showL showVal s.config,
-      showL (showL toString) s.ls ]
+      showL (showL toString) s.ls,
+      showL toString s.trainable ]
 
 /-- `run <fix> <env> <state> <prog>` → `<raised> <state>` -/
 def handle : List String → Option String
